@@ -17,6 +17,7 @@ import numpy as np
 
 from . import sym as S
 from . import npx
+from . import stubs
 from . import engine as E
 from .engine import Ctx, Smt, Infeasible, Inconclusive, SkipPoint, HarnessError
 
@@ -403,6 +404,8 @@ def decide_path(unit, ctx, res, rng, tier):
                 outcome = 'unknown'
                 break
             env = _model_assignment(ctx, smt, model, rng)
+            if os.environ.get('SYMX_DEBUG_MODEL'):
+                print('DEBUG sat model for', it[0], {k: str(v) for k, v in model.items()}, file=sys.stderr)
             fctx, st = run_float(unit, env)
             fails = [] if fctx is None else [f for f in fctx.float_failures]
             if st == 'ok' and fails:
@@ -662,6 +665,7 @@ def run_unit(unit, tier='quick', seed=0):
             res['inconclusive'].append('%s: path budget %d exhausted' % (unit.name, budget))
             break
         S.reset()
+        stubs.clear()      # (registered factors are keyed by node ids, which start again with every path)
         ctx = Ctx('sym', prefix, opts=unit.opts)
         S.set_ctx(ctx)
         prof = None
@@ -757,4 +761,5 @@ def run_unit(unit, tier='quick', seed=0):
     res['events'] = list(npx.EVENTS[:20])
     res['wall_s'] = time.time() - t0
     S.reset()
+    stubs.clear()
     return res
